@@ -70,7 +70,13 @@ struct Attempt {
     seq: u32,       // 0 = remove
     acked: bool,
     what: String,
+    /// addressed to a node that had been frozen (SIGSTOP) while it was the Raft leader and was thawed before this op
+    via_thawed_leader: bool,
 }
+
+/// open finding (DESIGN.md 8.4): a node that was frozen while it was leader answers a write right after it is
+/// thawed with success and applies it locally although the entry is never committed (it is not in any node's log)
+pub const KNOWN_THAWED: &str = "C06/write-through-a-just-thawed-deposed-leader-acknowledged-but-never-committed";
 
 static CASE_NO: AtomicU64 = AtomicU64::new(0);
 
@@ -95,7 +101,7 @@ pub fn run_case(case: &Case, work: &Path, seed: u64) -> CaseReport {
     let n = CASE_NO.fetch_add(1, Ordering::SeqCst);
     let mut env = BTreeMap::new();
     env.insert("RNACOS_ENABLE_NO_AUTH_CONSOLE".to_string(), "true".to_string());
-    let mut c = match Cluster::new(work, &format!("c06-{}", n), 3, seed.wrapping_mul(977).wrapping_add(n * 31 + std::process::id() as u64), env) {
+    let mut c = match Cluster::new_formed(work, &format!("c06-{}", n), 3, seed.wrapping_mul(977).wrapping_add(n * 31 + std::process::id() as u64), env) {
         Ok(c) => c,
         Err(e) => {
             return CaseReport {
@@ -137,9 +143,6 @@ fn heal(c: &mut Cluster, down: &mut Option<(usize, bool)>) -> Result<(), String>
 
 fn run_case_inner(case: &Case, c: &mut Cluster) -> CaseReport {
     let mut labels: BTreeSet<String> = BTreeSet::new();
-    if let Err(e) = c.form() {
-        return discard(format!("cluster did not form before any generated op: {}", e));
-    }
     let all_members = c.metrics(0).map(|m| m["membership_config"]["members"].as_array().map(|a| a.len()).unwrap_or(0)).unwrap_or(0);
     if all_members != 3 {
         return discard(format!("cluster has {} members before any generated op", all_members));
@@ -150,6 +153,7 @@ fn run_case_inner(case: &Case, c: &mut Cluster) -> CaseReport {
     let mut last_leader = c.leader();
     let mut leader_changed_between_acks = false;
     let mut acked_since_leader_change = [false; 4];
+    let mut frozen_as_leader: BTreeSet<usize> = BTreeSet::new();
     for (opi, op) in case.ops.iter().enumerate() {
         match op {
             Op::Publish { key, node } | Op::Remove { key, node } => {
@@ -167,11 +171,16 @@ fn run_case_inner(case: &Case, c: &mut Cluster) -> CaseReport {
                     (c.remove(nd, t, g, d), 0)
                 };
                 let acked = matches!(res, Ok(true));
+                let via = frozen_as_leader.contains(&nd);
+                if via && acked {
+                    labels.insert("acknowledged_write_through_a_thawed_former_leader".into());
+                }
                 attempts.push(Attempt {
                     key: k,
                     seq,
                     acked,
-                    what: format!("op #{} {:?} -> {:?}", opi, op, res),
+                    what: format!("op #{} {:?} -> {:?}{}", opi, op, res, if via { " [node was frozen while leader]" } else { "" }),
+                    via_thawed_leader: via,
                 });
                 if acked {
                     let l = c.leader();
@@ -205,6 +214,9 @@ fn run_case_inner(case: &Case, c: &mut Cluster) -> CaseReport {
             Op::Stop { node } => {
                 if down.is_none() {
                     let nd = *node as usize % 3;
+                    if c.leader() == Some(nd) {
+                        frozen_as_leader.insert(nd);
+                    }
                     c.sigstop(nd);
                     down = Some((nd, true));
                     labels.insert("sigstop_minority".into());
@@ -220,7 +232,7 @@ fn run_case_inner(case: &Case, c: &mut Cluster) -> CaseReport {
                 if let Err(e) = heal(c, &mut down) {
                     return CaseReport::violation(labels.into_iter().collect(), true, format!("op #{}: node does not restart: {}", opi, e));
                 }
-                if c.wait_quiescent_nudged_opt(45, 0, true).is_err() {
+                if c.wait_quiescent_nudged_opt(45, (0..3).find(|i| !frozen_as_leader.contains(i)).unwrap_or(0), true).is_err() {
                     continue;
                 }
                 let l = match c.leader() {
@@ -245,6 +257,7 @@ fn run_case_inner(case: &Case, c: &mut Cluster) -> CaseReport {
                     Some(ok && b.trim() == "true")
                 });
                 std::thread::sleep(Duration::from_millis(1500));
+                frozen_as_leader.insert(l);
                 c.sigstop(l);
                 for f in &followers {
                     c.sigcont(*f);
@@ -273,6 +286,7 @@ fn run_case_inner(case: &Case, c: &mut Cluster) -> CaseReport {
                         seq: seqs[k] - 1,
                         acked: false,
                         what: "placeholder".into(),
+                        via_thawed_leader: false,
                     });
                     let idx_x = attempts.len() - 1;
                     attempts.push(Attempt {
@@ -280,6 +294,7 @@ fn run_case_inner(case: &Case, c: &mut Cluster) -> CaseReport {
                         seq: seqs[k],
                         acked: matches!(res, Ok(true)),
                         what: format!("op #{} deposed-leader template: write seq {} to the new leader node {} -> {:?}", opi, seqs[k], nl + 1, res),
+                        via_thawed_leader: false,
                     });
                     c.sigcont(l);
                     let rx = handle.join().ok().flatten();
@@ -288,6 +303,7 @@ fn run_case_inner(case: &Case, c: &mut Cluster) -> CaseReport {
                         seq: seq_x,
                         acked: rx == Some(true),
                         what: format!("op #{} deposed-leader template: write seq {} to the old leader node {} while its followers were frozen -> {:?}", opi, seq_x, l + 1, rx),
+                        via_thawed_leader: false,
                     };
                     if rx == Some(true) {
                         labels.insert("deposed_leader_answered_success".into());
@@ -302,6 +318,7 @@ fn run_case_inner(case: &Case, c: &mut Cluster) -> CaseReport {
                         seq: seq_x,
                         acked: rx == Some(true),
                         what: format!("op #{} deposed-leader template (no new leader elected): write seq {} -> {:?}", opi, seq_x, rx),
+                        via_thawed_leader: false,
                     });
                 }
                 last_leader = c.leader();
@@ -323,7 +340,7 @@ fn run_case_inner(case: &Case, c: &mut Cluster) -> CaseReport {
     // "caught up" = same leader known everywhere and last_applied == the leader's last log index. A restarted node
     // occasionally reports NonVoter although the stored membership lists it (DESIGN.md 8.4, observations): it
     // still receives and applies every entry, and the statement speaks about served contents only
-    if let Err(e) = c.wait_quiescent_nudged_opt(90, 0, true) {
+    if let Err(e) = c.wait_quiescent_nudged_opt(90, (0..3).find(|i| !frozen_as_leader.contains(i)).unwrap_or(0), true) {
         return CaseReport::violation(
             labels.into_iter().collect(),
             true,
@@ -333,6 +350,8 @@ fn run_case_inner(case: &Case, c: &mut Cluster) -> CaseReport {
     if (0..3).any(|i| c.metrics(i).map(|m| m["state"] == "NonVoter").unwrap_or(false)) {
         labels.insert("observed_restarted_node_reporting_nonvoter".into());
     }
+    // a violation that involves a write acknowledged by a just-thawed former leader is the recorded open finding
+    let known_for_key = |k: usize, attempts: &Vec<Attempt>| -> bool { is_open("C06", KNOWN_THAWED) && attempts.iter().any(|a| a.key == k && a.acked && a.via_thawed_leader) };
     // the sentinel writes of the harness (one fresh key each) are ordinary log entries: all nodes agree on them too
     {
         let mut views = vec![];
@@ -362,6 +381,10 @@ fn run_case_inner(case: &Case, c: &mut Cluster) -> CaseReport {
         if vals[0] != vals[1] || vals[1] != vals[2] {
             let hs: Vec<String> = (0..3).map(|nd| format!("node{} history {:?} metrics {}", nd + 1, history(c, nd, k).unwrap_or_default(), c.metrics(nd).map(|m| format!("{}/log{}/app{}", m["state"], m["last_log_index"], m["last_applied"])).unwrap_or_default())).collect();
             let trail: Vec<String> = attempts.iter().filter(|a| a.key == k).map(|a| a.what.clone()).collect();
+            if known_for_key(k, &attempts) {
+                labels.insert("known_thawed_leader_write".into());
+                return CaseReport { labels: labels.into_iter().collect(), nontrivial: true, verdict: Verdict::Known(KNOWN_THAWED.into()) };
+            }
             return CaseReport::violation(labels.into_iter().collect(), true, format!("nodes settled on different contents for key {} ({:?}): {:?}; {:?}; ops on the key: {:?}; panics / dead actors in the node logs: {:?}", k, KEYS[k], vals, hs, trail, (0..3).map(|nd| c.log_alarms(nd)).collect::<Vec<_>>()));
         }
         let ka: Vec<&Attempt> = attempts.iter().filter(|a| a.key == k).collect();
@@ -378,6 +401,10 @@ fn run_case_inner(case: &Case, c: &mut Cluster) -> CaseReport {
         }
         if !admissible.contains(&vals[0]) {
             let trail: Vec<String> = ka.iter().map(|a| format!("{}{}", if a.seq == 0 { "remove".to_string() } else { format!("seq{}", a.seq) }, if a.acked { "(ok)" } else { "(no-ack)" })).collect();
+            if known_for_key(k, &attempts) {
+                labels.insert("known_thawed_leader_write".into());
+                return CaseReport { labels: labels.into_iter().collect(), nontrivial: true, verdict: Verdict::Known(KNOWN_THAWED.into()) };
+            }
             return CaseReport::violation(
                 labels.into_iter().collect(),
                 true,
@@ -400,6 +427,10 @@ fn run_case_inner(case: &Case, c: &mut Cluster) -> CaseReport {
                 };
                 for a in ka.iter().filter(|a| a.acked && a.seq > 0) {
                     if !h.contains(&content(k, a.seq)) {
+                        if a.via_thawed_leader && is_open("C06", KNOWN_THAWED) {
+                            labels.insert("known_thawed_leader_write".into());
+                            return CaseReport { labels: labels.into_iter().collect(), nontrivial: true, verdict: Verdict::Known(KNOWN_THAWED.into()) };
+                        }
                         return CaseReport::violation(
                             labels.into_iter().collect(),
                             true,
@@ -455,6 +486,16 @@ pub fn main(ctx: &Ctx) -> i32 {
         return r;
     }
     let stats = Arc::new(Stats::default());
+    // regression tier: saved counterexamples first (fixed defects must stay fixed, examples of open findings must
+    // still be recognised as such)
+    let w1 = work.clone();
+    if let Some((p, m)) = rerun_saved_replays::<Case, _>(ctx, &stats, 3, move |c| run_case(c, &w1, seed)) {
+        write_evidence(ctx, &stats, &fin(), 1);
+        println!("violation detail: {}", m);
+        println!("VIOLATION property={} replay={}", ctx.id, p.display());
+        std::fs::remove_dir_all(&work).ok();
+        return 1;
+    }
     let n_rand = ctx.tier.pick(10u32, 120u32);
     let n_tmpl = ctx.tier.pick(4u32, 40u32);
     let w2 = work.clone();
